@@ -129,5 +129,25 @@ def main():
         shutil.rmtree(root, ignore_errors=True)
     check("virtual-sleep", abs(seen.get("dt", 0) - 3600.0) < 1e-6 and wall < 1.0,
           f"(an hour of simulated sleep read back as {seen.get('dt')} s and cost {wall * 1000:.1f} ms of wall time)")
+    # 6. a worker killed by a native crash: the batch survives, exactly that unit is skipped and counted
+    import machines  # noqa: F401
+    eng = R.get_engine("noise")
+    units = eng.plan("quick", 0)[:600]
+    os.environ["VERIF_TEST_CRASH_INDEX"] = "137"
+    try:
+        devnull = os.open(os.devnull, os.O_WRONLY)
+        saved = os.dup(2)
+        os.dup2(devnull, 2)                      # the crashing child prints a faulthandler traceback: not wanted here
+        try:
+            tot, _ = R.run_batch("noise", 0, units, 8)
+        finally:
+            os.dup2(saved, 2)
+            os.close(saved)
+            os.close(devnull)
+    finally:
+        os.environ.pop("VERIF_TEST_CRASH_INDEX", None)
+    tot2, _ = R.run_batch("noise", 0, units, 8)
+    check("native-crash-isolated", tot.native_crashes == [(137, 11)] and tot.evaluations == tot2.evaluations - 1,
+          f"(unit 137 skipped after SIGSEGV, {tot.evaluations} of {tot2.evaluations} executions kept)")
     print("kernel:", "OK" if ok else "FAILED")
     return 0 if ok else 2
